@@ -158,7 +158,24 @@ func main() {
 	flag.BoolVar(&cfg.Verbose, "v", false, "verbose")
 	flag.StringVar(&jsonOut, "json", "", "write raw results as JSON")
 	list := flag.Bool("list", false, "list contracts and exit")
+	var evidence, knownPath, basePath string
+	var updBase bool
+	var seed int64
+	flag.StringVar(&evidence, "evidence", "", "evidence file to write (property mode)")
+	flag.StringVar(&knownPath, "known", "/verif/known_findings.json", "known findings file")
+	flag.StringVar(&basePath, "baseline", "/verif/baseline_obligations.json", "baseline obligations file")
+	flag.BoolVar(&updBase, "update-baseline", false, "rewrite the baseline entry of this property from this run")
+	flag.Int64Var(&seed, "seed", 0, "seed (recorded; the proof has no random choices)")
 	flag.Parse()
+	if cfg.Prop != "" && fns == "" && !*list {
+		if cfg.Work == "/verif/work/tmp" {
+			cfg.Work = "/verif/work/" + cfg.Prop
+		}
+		if cfg.Tier == "thorough" && cfg.Timeout == 10*time.Second {
+			cfg.Timeout = 60 * time.Second
+		}
+		os.Exit(runProperty(cfg, evidence, knownPath, basePath, updBase, seed))
+	}
 	if fns != "" {
 		cfg.Funcs = strings.Split(fns, ",")
 	}
@@ -221,7 +238,7 @@ func main() {
 			if i >= 8 || r.Secs < 1.0 {
 				break
 			}
-			fmt.Printf("SLOW     %.1fs %s\n", r.Secs, r.Name)
+			fmt.Printf("SLOW     %.1fs %s (%s %s)\n", r.Secs, r.Name, r.SlowSolver, r.SlowFile)
 		}
 	}
 	fmt.Printf("functions=%d obligations=%d proved=%d failed=%d paths=%d queries=%d load=%.1fs gen=%.1fs solve=%.1fs\n",
